@@ -1,4 +1,5 @@
 import Sgz.Model.Writer
+import Sgz.Model.Axes
 /-!
 # Model/Window — conversion with an inline/crossline ordinal window (C11)
 
@@ -35,6 +36,15 @@ def tStore (N1 : Nat) (w : Win) (t : Nat) : Nat := (t % N1 - w.b0) + (t / N1 - w
 /-- first and last stored trace, used by header detection (`get_blank_header_info`) -/
 def firstTrace (N1 : Nat) (w : Win) : Nat := w.a0 * N1 + w.b0
 def lastTrace (N1 : Nat) (w : Win) : Nat := (w.a1 - 1) * N1 + (w.b1 - 1)
+
+/-- header words of one line axis of a windowed conversion (`make_header`): count `len(geom.lines)`, origin
+`axis[geom.lines[0]]`, increment `axis[1] − axis[0]`, where `axis[k] = start + step·k` is the **source** axis and
+`[c0, c1)` the window's ordinals on it -/
+def axisWords (start step : Int) (c0 c1 : Nat) : Nat × Int × Int := (c1 - c0, start + step * (c0 : Int), step)
+
+/-- the line axis a reader regenerates from those words (`gen_coord_list`; the 32-bit word codec is C05's `axis_roundtrip`) -/
+def windowAxis (start step : Int) (c0 c1 : Nat) : List Int :=
+  Axes.axis (axisWords start step c0 c1).2.1 (axisWords start step c0 c1).2.2 (axisWords start step c0 c1).1
 
 end Window
 end Sgz
